@@ -163,6 +163,11 @@ instance : DecidableEq (Except Err Bytes) := fun a b =>
   | .ok _, .error _ => isFalse (fun e => by cases e)
   | .error _, .ok _ => isFalse (fun e => by cases e)
 
+/-- an info field with its (mutable) segment identifier cleared -/
+def clearSegID (i : Info) : Info := { i with segID := 0 }
+/-- a hop field with its (mutable) router-alert flags cleared -/
+def clearAlerts (h : Hop) : Hop := { h with inAlert := false, egAlert := false }
+
 /-- what the specification covers of the traffic class: the six DSCP bits ("TC w/o ECN") -/
 def specTC (tc : Nat) : Nat := tc / 4
 /-- what the code covers of the traffic class: `TrafficClass & 0x3f` -/
